@@ -136,6 +136,13 @@ func cmdCheck(w *World, args []string, tier string, verbose bool) int {
 				}
 			}
 		}
+		for _, es := range ct.LoopEntry {
+			for _, e := range es {
+				if hasProp(e.Props, prop) {
+					relevant = true
+				}
+			}
+		}
 		for _, ac := range ct.AtCall {
 			if hasProp(ac.Expr.Props, prop) {
 				relevant = true
@@ -580,6 +587,7 @@ func deriveContract(base *Contract, name string) *Contract {
 			ct.LoopDec[k] = v
 		}
 		ct.LoopStep, ct.LoopSnap = base.LoopStep, base.LoopSnap
+		ct.LoopEntry = base.LoopEntry
 	}
 	return ct
 }
